@@ -52,6 +52,10 @@ def format_shape(t):
     (pieces, [(kind, value_term)]) or None."""
     fm = T.find(t, lambda x: T.is_call(x, r"^std::fmt::format$|^alloc::fmt::format$"))
     if fm is None:
+        # `x.to_string()` is `format!("{}", x)` (the blanket `impl<T: Display> ToString for T`)
+        ts = T.find(t, lambda x: T.is_call(x, r"^<T as std::string::ToString>::to_string$|^std::string::ToString::to_string$") and len(x[2]) == 1)
+        if ts is not None:
+            return [("arg", 0, {"zero": False, "width": None, "precision": None})], [("display", ts[2][0])]
         return None
     an = T.find(fm, lambda x: T.is_call(x, r"fmt::Arguments::<'a>::new$"))
     if an is None:
